@@ -36,12 +36,22 @@ def score_abs(score):
 
 
 def build(score, via="abs"):
+    """via: 'abs' (only the absolute view is current), 'rel' (only the relative one), 'both' (both materialised)."""
     ms = score_abs(score)
     if via == "abs":
         return P.seq_from_abs(ms)
+    if via == "both":
+        s = P.seq_from_abs(ms)
+        s.refresh()
+        return s
     return P.seq_from_rel(P.abs_to_rel(ms))
 
 
 def safe_views(seq):
     v = P.views(seq)
     return v
+
+
+def via(idx):
+    """rotating construction route of the sequence under test"""
+    return ("abs", "rel", "both")[idx % 3]
